@@ -20,7 +20,7 @@ class UserVal(Opaque):
         return f"<user {self.name}>"
 
 
-def install_user_hooks(vm, allow=()):
+def install_user_hooks(vm, allow=(), fork_truth=True):
     """Hooks for UserVal; `allow` = operations that are not logged (e.g. 'isinstance', 'type', 'id')."""
     ctx = vm.ctx
     h = vm.spec.opaque_hooks
@@ -31,6 +31,8 @@ def install_user_hooks(vm, allow=()):
 
     def truth(it, v):
         log("truth", v)
+        if not fork_truth:
+            return True        # the effect is what the obligation is about; no path split
         return SBool(ctx.fresh_bool(f"truth_{getattr(v, 'name', 'x')}"))
 
     def getattr_(it, v, name):
@@ -79,11 +81,15 @@ def install_user_hooks(vm, allow=()):
         log("contains", c if isinstance(c, UserVal) else item)
         return SBool(ctx.fresh_bool("userin"))
 
+    def to_list(it, v):
+        log("iter", v)
+        return [UserVal(f"{getattr(v, 'name', 'x')}[0]")]
+
     def type_(it, v):
         return v.cls if getattr(v, "cls", None) is not None else it.ext("UserType")
 
     h.update({"truth": truth, "getattr": getattr_, "call": call, "isinstance": isinstance_, "hasattr": hasattr_, "eq": eq,
-              "order": order, "iter_value": iter_value, "len": len_, "contains": contains, "type": type_,
+              "order": order, "iter_value": iter_value, "to_list": to_list, "len": len_, "contains": contains, "type": type_,
               "str": lambda it, v: "user"})
 
 
